@@ -185,6 +185,32 @@ def shape(t):
     return f"p{len(t[2])}" if t[0] == "prop" else f"({shape(t[1])} {t[0]} {shape(t[2])})"
 
 
+def live_propositions(fl, node):
+    """the Proposition objects of a loaded expression, left to right"""
+    if isinstance(node, fl.Proposition):
+        return [node]
+    if isinstance(node, fl.Operator):
+        return live_propositions(fl, node.left) + live_propositions(fl, node.right)
+    return []
+
+
+def tree_propositions(t):
+    """the proposition nodes of an oracle tree, left to right"""
+    if t[0] == "prop":
+        return [t]
+    if len(t) == 3:
+        return tree_propositions(t[1]) + tree_propositions(t[2])
+    return []
+
+
+def replace_node(t, old, new):
+    if t is old:
+        return new
+    if t[0] == "prop":
+        return t
+    return (t[0], replace_node(t[1], old, new), replace_node(t[2], old, new))
+
+
 def build_engine(fl, rnd, d=3):
     nin = rnd.randint(1, 3)
     spec_inputs, ivs = [], []
@@ -295,6 +321,20 @@ def run(ctx):
                     rule.activate_with(conj, disj)
                 except Exception:
                     pass
+            # the loaded expression is edited after it was evaluated: the hedges of a proposition reordered / replaced in place (the
+            # list keeps its length); the next evaluation reads the hedges as they are now
+            live = live_propositions(fl, rule.antecedent.expression)
+            flat = tree_propositions(mon.expected.get(key, ("x",)))
+            editable = [(p, t) for p, t in zip(live, flat) if len(t[2]) >= 2 and "any" not in t[2] and len(set(t[2])) > 1] if len(live) == len(flat) else []
+            if editable and rule.antecedent.is_loaded():
+                prop, node = rnd.choice(editable)
+                prop.hedges.reverse()
+                mon.expected[key] = replace_node(mon.expected[key], node, ("prop", node[1], list(reversed(node[2])), node[3]))
+                ctx.hit("event:hedges of a loaded proposition edited in place after an evaluation")
+                try:
+                    rule.activate_with(conj, disj)
+                except Exception:
+                    pass
             mon.expected.pop(key, None)
             mon.weights.pop(key, None)
             mon.engines.pop(key, None)
@@ -311,7 +351,7 @@ def run(ctx):
                 ctx.sample("antecedent", {"text": rule_text, "postfix": E.tree_postfix(tree), "conjunction": tname, "disjunction": sname, "row": rows[0], "degree": rule.activation_degree})
         probe.report(ctx)
         reach.report(ctx)
-    ctx.require("hook:Rule.activate_with", "hook:Antecedent.load", "compare:degree (generator tree)", "compare:postfix (generator tree)", "discriminates:swapped precedence", "discriminates:right associativity", "discriminates:hedge order", "piece:any", "piece:disabled variable", "piece:output variable proposition", "piece:weight", "shape:mixes and/or", "event:rule object reused for another text", "event:a loaded rule is given a text that is rejected", "route:rule of a duplicated engine (copy)", "route:rule of a duplicated engine (deepcopy)", "route:rule of a duplicated engine (fll)", "input:2-D block of values per variable")
+    ctx.require("hook:Rule.activate_with", "hook:Antecedent.load", "compare:degree (generator tree)", "compare:postfix (generator tree)", "discriminates:swapped precedence", "discriminates:right associativity", "discriminates:hedge order", "piece:any", "piece:disabled variable", "piece:output variable proposition", "piece:weight", "shape:mixes and/or", "event:rule object reused for another text", "event:a loaded rule is given a text that is rejected", "event:hedges of a loaded proposition edited in place after an evaluation", "route:rule of a duplicated engine (copy)", "route:rule of a duplicated engine (deepcopy)", "route:rule of a duplicated engine (fll)", "input:2-D block of values per variable")
 
 
 def passive(ctx, fl, probe):
